@@ -248,14 +248,17 @@ MC = {
     "damage5": dict(script="ScriptQ1x5", script2="Gen2None", stops=1, damage=2, amax=5, emax=2, conns=2, dial=0, write=0, read=0, store=0, calls=6, k_quick=2000, k_thorough=200),
     "damage24": dict(script="ScriptQ2x4", script2="Gen2None", stops=1, damage=1, amax=2, emax=4, conns=2, dial=0, write=0, read=0, store=0, calls=7, k_quick=6000, k_thorough=600, thorough_only=True),
     "inrestart": dict(script="ScriptNone", script2="Gen2None", inmsgs="In22", stops=1, amax=2, emax=2, conns=3, dial=0, write=1, read=1, store=0, calls=8, k_quick=100, k_thorough=10),
+    # the same scripts with processes that may block inside the library after they left their gate (thorough tier)
+    "req_b": dict(script="ScriptReq", blocking=True, amax=2, emax=2, conns=2, dial=1, write=1, read=0, store=0, calls=4, k_quick=200, k_thorough=20, thorough_only=True),
+    "close_b": dict(script="ScriptClose", blocking=True, amax=2, emax=2, conns=2, dial=1, write=1, read=1, store=0, calls=4, k_quick=400, k_thorough=40, thorough_only=True),
     "q12w2": dict(script="ScriptQ12", amax=2, emax=2, conns=2, dial=0, write=2, read=0, store=0, calls=4, k_quick=25, k_thorough=3),
     "quit":  dict(script="ScriptQuit", amax=2, emax=2, conns=2, dial=0, write=0, read=1, store=0, calls=4, k_quick=150, k_thorough=15),
     "unsub": dict(script="ScriptUnsub", amax=2, emax=2, conns=2, dial=0, write=1, read=1, store=0, calls=4, k_quick=60, k_thorough=6),
     "mixreq": dict(script="ScriptMixReq", amax=2, emax=2, conns=2, dial=1, write=1, read=0, store=0, calls=4, k_quick=25, k_thorough=3),
 }
 MC_FOR = {
-    "C01": ["one", "q2"], "C03": ["q2"], "C05": ["two"], "C10": ["one", "mixreq"], "C12": ["close", "reqclose", "disc", "discreq"], "C17": ["max1", "one"],
-    "C18": ["one", "req"], "C14": ["req", "close", "quit", "unsub"], "C08": ["mixreq", "two", "q12w2"], "C11": ["req", "pings", "quit", "unsub", "devF25"],
+    "C01": ["one", "q2"], "C03": ["q2"], "C05": ["two"], "C10": ["one", "mixreq"], "C12": ["close", "reqclose", "disc", "discreq", "close_b"], "C17": ["max1", "one"],
+    "C18": ["one", "req"], "C14": ["req", "close", "quit", "unsub"], "C08": ["mixreq", "two", "q12w2"], "C11": ["req", "pings", "quit", "unsub", "devF25", "req_b"],
     "C04": ["in22", "in", "inrestart"], "C07": ["in", "in22", "inrestart"], "C13": ["in"], "C02": ["restart", "restart2"], "C16": ["damage", "damage3", "damage5", "damage24"],
 }
 INVARIANTS = ("TypeOK C01_NoForgedCompletion C03_ExactlyOnceDelivery C05_WireOrderIsIdOrder C07_AckedOnlyIfReturned C08_WholePackets C12_Signals C17_Bounded "
@@ -290,7 +293,7 @@ def tlc_behaviours(ctx, name, cap):
     k = c["k_quick"] if ctx.tier == "quick" else c["k_thorough"]
     dev = c.get("dev", "")
     cfg = ("CONSTANTS Script <- %s Script2 <- " + c.get("script2", "NoGen2") + (" MaxStops = %d MaxDamage = %d" % (c.get("stops", 0), c.get("damage", 0)))
-           + "".join(" DEV_%s = %s" % (f, "TRUE" if f == dev else "FALSE") for f in ("F2", "F10", "F19", "F25")) + " Blocking = FALSE"
+           + "".join(" DEV_%s = %s" % (f, "TRUE" if f == dev else "FALSE") for f in ("F2", "F10", "F19", "F25")) + " Blocking = " + ("TRUE" if c.get("blocking") else "FALSE")
            + " InMsgs <- " + c.get("inmsgs", "NoIn") + " AMax = %d EMax = %d MaxConns = %d DialFails = %d WriteFails = %d ReadFails = %d "
            "StoreFails = %d MaxCalls = %d RecordHist = TRUE DEV_F4 = FALSE DEV_F6 = FALSE SampleK = %d\n"
            "SPECIFICATION Spec\nVIEW view\nINVARIANTS %s\nPROPERTIES C08_NothingAfterIncomplete\nCHECK_DEADLOCK FALSE\nACTION_CONSTRAINT %s\n") % (
